@@ -88,6 +88,33 @@ def check_type(ctx, d, stratum="type"):
         cb = opaque_bounds(c._to_serial_root().model_dump(mode="json"), [])[0][2]
         if cb != exp:
             ctx.disc(None, "container-wire-bound", name, exp, cb, stratum=stratum, case=d)
+    # the same containers as plain extension types over the definitions the std extensions were LOADED with (decoded
+    # from JSON), through TypeDef.instantiate and through resolution of the opaque form
+    import hugr.std.collections.array as _arr
+    import hugr.std.collections.list as _lst
+    from hugr import tys as _tys
+    from hugr.ext import ExtensionRegistry as _Reg
+
+    ctx.count("monitor:loaded-definition-bound")
+    ldef, adef = _lst.EXTENSION.get_type("List"), _arr.EXTENSION.get_type("array")
+    reg = _Reg()
+    reg.add_extension(_lst.EXTENSION)
+    plain = [("List.instantiate", ldef.instantiate([t.type_arg()])),
+             ("array.instantiate", adef.instantiate([_tys.BoundedNatArg(2), t.type_arg()])),
+             ("Opaque(List).resolve", _tys.Opaque("List", _tys.TypeBound(exp), [t.type_arg()],
+                                                   "collections.list").resolve(reg))]
+    if d[0] == "ext":
+        # ... and the generated definition itself after a trip through the extension's JSON form
+        from hugr.ext import Extension as _Ext
+
+        back = _Ext.from_json(B.exts[d[1].get("ext", "verif.test")].to_json())
+        plain.append(("reloaded definition", back.get_type(d[1]["name"]).instantiate(list(t.args))))
+    for name, c in plain:
+        if c.type_bound().value != exp:
+            ctx.disc(None, "loaded-definition-bound", name, exp, c.type_bound().value, stratum=stratum, case=d)
+        cb = opaque_bounds(c._to_serial_root().model_dump(mode="json"), [])[0][2]
+        if cb != exp:
+            ctx.disc(None, "loaded-definition-wire-bound", name, exp, cb, stratum=stratum, case=d)
     try:
         sa = StaticArray(t)
         res = "accepted"
